@@ -1062,4 +1062,14 @@ pub(crate) mod verif_local {
     ) -> bool {
         visitor.is_unknown_rustfmt_attr(segments)
     }
+
+    /// `FmtVisitor::close_block(mk_sp(lo, hi), unindent_comment)`.
+    pub(crate) fn close_block(
+        visitor: &mut FmtVisitor<'_>,
+        lo: BytePos,
+        hi: BytePos,
+        unindent_comment: bool,
+    ) {
+        visitor.close_block(mk_sp(lo, hi), unindent_comment)
+    }
 }
